@@ -452,6 +452,20 @@ func genC18(r *Rand, tier string, i int) *h.Scenario {
 }
 
 func judgeC18(hi *Hist) []*Violation {
+	if (hi.Res.Outcome == simrt.Deadlock || hi.Res.Outcome == simrt.Hang) && !faulted(hi) && hi.Sc.Cont.Pop && !hi.Sc.Cont.Delay && !cancelled(hi) {
+		// rendering stopped for good with a finished bar still waiting to be moved to the top
+		frames := ParseFrames(hi)
+		for _, bf := range Facts(hi) {
+			if !bf.Added || !poppable(hi, bf) || !bf.Sequential || !bf.Model.Terminal() || len(frames) == 0 {
+				continue
+			}
+			last := frames[len(frames)-1]
+			if g := last.GroupOf(bf.Idx); g != nil && isTerminalFlags(g.Flags) {
+				return []*Violation{viol("C18", "pop-stuck", "%v: bar %d is shown finished in the last frame that was ever written (frame %d) but is never moved above the running bars: rendering stopped\n%s%s", hi.Res.Outcome, bf.Idx, len(frames)-1, stuckOps(hi), describeLive(hi.Res))}
+			}
+		}
+		return nil
+	}
 	if hi.Res.Outcome != simrt.OK || faulted(hi) || !hi.Sc.Cont.Pop || hi.Sc.Cont.Delay {
 		return nil
 	}
